@@ -22,7 +22,7 @@ ASSUMPTIONS = [
     "break rule: the record following the last group of a partition-side column in which a requested volume exceeded max_volume is B;",
     "malformed calls must raise (any exception type); for incompatible lengths no A/D record may exist afterwards",
 ]
-BUDGET = {"quick": (4, 300), "thorough": (16, 4000)}
+BUDGET = {"quick": (4, 600), "thorough": (16, 4000)}
 KNOWN_KINDS = {}
 STRATA = ["lists", "broadcast", "2d", "malformed"]
 REQUIRED_CLASSES = ["shape:lists", "shape:2d", "shape:broadcast-src", "shape:broadcast-dst", "shape:broadcast-vol", "split", "reordered-both", "malformed:negative", "malformed:length", "diti", "trough-source", "wash:flush", "wash:reuse", "auto_split:off", "malformed:auto_split=False", "malformed:auto_split=True"]
